@@ -109,6 +109,11 @@ impl<A, B: AsyncRead> AsyncRead for Chain<A, B> {
     #[verifier::external_body]
     fn read_to_end(&mut self, buf: &mut Vec<u8>) -> (r: Result<usize, std::io::Error>) { unimplemented!() }
 }
+pub open spec fn min_nat(a: nat, b: nat) -> nat { if a <= b { a } else { b } }
+pub open spec fn chain_front(before: Seq<u8>, after: Seq<u8>, delivered: Seq<u8>) -> bool {
+    let k = min_nat(delivered.len(), before.len()) as int;
+    after == before.skip(k) && delivered.take(k) == before.take(k)
+}
 pub trait ChainExt: Sized {
     fn chain<B: AsyncRead>(self, next: B) -> (c: Chain<Self, B>)
         ensures c.second() == next, c.chist().len() == 0,
@@ -119,7 +124,10 @@ impl<const N: usize> ChainExt for &mut FixedBuf<N> {
     #[verifier::external_body]
     fn chain<B: AsyncRead>(self, next: B) -> (c: Chain<Self, B>)
         // reading out of a well-formed FixedBuf (its AsyncRead impl only advances the read index) leaves it well-formed
-        ensures old(self).wf() ==> final(self).wf()
+        ensures old(self).wf() ==> final(self).wf(),
+            // (assumed, from fixed-buffer's AsyncRead impl and futures-lite's Chain) the chain delivers the buffer's readable
+            // bytes first, and exactly the bytes it did not deliver are still readable once the chain is given up
+            chain_front(old(self).rd(), final(self).rd(), consumed(c)),
     { unimplemented!() }
 }
 
@@ -279,6 +287,15 @@ pub open spec fn rb_limit_clause(pre: HttpConn, post: HttpConn, r: Result<Reques
 pub open spec fn rb_coding_clause(pre: HttpConn, post: HttpConn, r: Result<RequestBody, HttpError>, max: Option<u64>) -> bool {
     (pre.read_state matches ReadState::Body { chunked, gzip, .. } && (chunked || gzip))
         ==> r == Err::<RequestBody, HttpError>(HttpError::UnsupportedTransferEncoding) && same_conn(pre, post)
+}
+// C03: a body with a declared length is exactly the next N bytes: as far as they were buffered already it is those bytes,
+// and what followed them in the buffer stays there for the next request
+pub open spec fn rb_exact_clause(pre: HttpConn, post: HttpConn, r: Result<RequestBody, HttpError>, max: Option<u64>) -> bool {
+    (body_guard_err(pre.read_state, max) is None && pre.read_state->len is Some && r is Ok) ==> ({
+        let k = min_nat(pre.read_state->len->Some_0 as nat, pre.buf.rd().len()) as int;
+        post.buf.rd() == pre.buf.rd().skip(k)
+        && (max is None ==> r->Ok_0 is Vec && r->Ok_0->Vec_0@.take(k) == pre.buf.rd().take(k))
+    })
 }
 // C03: the body read state is exactly the framing the request head declared
 pub open spec fn rr_framing_clause(pre: HttpConn, post: HttpConn, r: Result<Request, HttpError>) -> bool {
